@@ -20,6 +20,17 @@ def splice(code, key, text):
     return "\n".join(out)
 
 
+def assigned_call_receivers(stmts):
+    """receivers of `x = obj.method(…)`: obj may be an effect object whose state the call changes"""
+    out = []
+    for s in stmts:
+        for n in ast.walk(s):
+            if isinstance(n, ast.Assign) and isinstance(n.value, ast.Call) and isinstance(n.value.func, ast.Attribute) \
+                    and isinstance(n.value.func.value, (ast.Name, ast.Attribute)):
+                out.append(n.value.func.value)
+    return out
+
+
 def assigned_names(stmts):
     """python names (and `self.x` keys) assigned anywhere in the statements"""
     out = []
@@ -39,6 +50,7 @@ def assigned_names(stmts):
             if isinstance(n, ast.Assign):
                 for t in n.targets:
                     tgt(t)
+
             elif isinstance(n, (ast.AugAssign, ast.AnnAssign)):
                 tgt(n.target)
             elif isinstance(n, ast.For):
@@ -337,6 +349,10 @@ class StmtMixin:
         if isinstance(v, ast.Call) and isinstance(v.func, ast.Attribute) and v.func.attr == "pop" \
                 and not v.args and src(v.func.value) in env:
             return self.pop_stmt(src(v.func.value), target, env, nxt)
+        # `F.header['description'] = …` : a display text on the formula object
+        if isinstance(target, ast.Subscript) and isinstance(target.value, ast.Attribute) and target.value.attr == "header" \
+                and self.effect_key(target.value.value, env) is not None:
+            return nxt(env)
         # d[k] = v on a dictionary
         if isinstance(target, ast.Subscript) and src(target.value) in env:
             key = src(target.value)
@@ -489,7 +505,12 @@ class StmtMixin:
         return "let {} := ({})\n{}".format(st, code, tail)
 
     # ------------------------------------------------------------ if
-    def canon_names(self, names, env):
+    def canon_names(self, names, env, stmts=()):
+        names = list(names)
+        for r in assigned_call_receivers(stmts):
+            key = self.effect_key(r, env)
+            if key is not None and key not in names:
+                names.append(key)
         out = []
         for n in names:
             if n in self.effect_alias:
@@ -501,7 +522,7 @@ class StmtMixin:
         return out
 
     def s_If(self, s, env, nxt):
-        names = self.canon_names(assigned_names(s.body + s.orelse), env)
+        names = self.canon_names(assigned_names(s.body + s.orelse), env, s.body + s.orelse)
         # a test decided by the declared types (isinstance on an object of known class): only the live branch exists
         try:
             p0 = self.pure_prop(s.test, env)
@@ -552,7 +573,7 @@ class StmtMixin:
         for n in ast.walk(s):
             if isinstance(n, (ast.Return, ast.Break, ast.Continue)):
                 raise Unsupported("return / break / continue inside a loop")
-        state = [n for n in self.canon_names(assigned_names(s.body), env) if n in env]
+        state = [n for n in self.canon_names(assigned_names(s.body), env, s.body) if n in env]
         for n in state:
             self.check_mutable(n) if isinstance(resolve(env[n][1]), (TList, TDict)) else None
 
@@ -656,6 +677,9 @@ class StmtMixin:
             else:
                 consts = None
                 break
+        if consts is None and len(call.args) == 1 and isinstance(call.args[0], ast.Starred) \
+                and isinstance(call.args[0].value, ast.Name):
+            consts = ("star", call.args[0].value.id)        # format(*seq): only the length of seq matters
         ob = self.observer_param("format", recv, consts)
         handler = self.block(h.body, env, lambda e: self.unsup_fall())
         self.raised += 1
